@@ -26,6 +26,9 @@ THEOREMS = [
     "C19_simple_enum_surface",
     "C19_string_newtype_surface",
     "C19_builtin_derives_derivable",
+    "C19_extension_derives_derivable",
+    "C19_known_long_array_fails",
+    "C19_known_long_tuple_fails",
     "C19_cmp_hash_never_on_float",
     "C19_extra_derives_everywhere",
     "C19_type_derives_everywhere",
@@ -189,6 +192,71 @@ PIECES = {
     "Recursive": (obj({"next": {"$ref": "#/definitions/Recursive"}, "v": NUM}), {"float", "struct"}),
 }
 
+# ---- struct members of every IR kind x {required, optional, default}: every `default` /
+# `skip_serializing_if` path generate_serde_attr can emit sits inside a type whose bound assertion is compiled
+KEYPAT = {"type": "string", "pattern": "^[a-z]+$"}
+MEMBER_TYPES = {
+    "map_str_any": {"type": "object", "additionalProperties": True},
+    "map_str_any2": {"type": "object"},
+    "map_ckey_any": {"type": "object", "propertyNames": KEYPAT},
+    "map_enumkey_any": {"type": "object", "propertyNames": {"type": "string", "enum": ["a", "b"]}},
+    "map_uuidkey_any": {"type": "object", "propertyNames": {"type": "string", "format": "uuid"}},
+    "map_refkey_any": {"type": "object", "propertyNames": {"$ref": "#/definitions/KeyType"}},
+    "map_str_typed": {"type": "object", "additionalProperties": {"type": "integer"}},
+    "map_ckey_typed": {"type": "object", "propertyNames": KEYPAT, "additionalProperties": {"type": "number"}},
+    "map_refkey_typed": {"type": "object", "propertyNames": {"$ref": "#/definitions/KeyType"},
+                         "additionalProperties": {"type": "string"}},
+    "set_str": {"type": "array", "items": {"type": "string"}, "uniqueItems": True},
+    "vec_int": {"type": "array", "items": {"type": "integer"}},
+    "arr3": {"type": "array", "items": {"type": "integer"}, "minItems": 3, "maxItems": 3},
+    "arr32": {"type": "array", "items": {"type": "integer"}, "minItems": 32, "maxItems": 32},   # 33: finding C19-F1
+    "tuple2": {"type": "array", "items": [{"type": "integer"}, {"type": "string"}], "minItems": 2, "maxItems": 2},
+    "optopt": {"oneOf": [{"type": "null"}, {"type": ["integer", "null"]}]},
+    "nullable": {"type": ["string", "null"]},
+    "uuid": {"type": "string", "format": "uuid"},
+    "datetime": {"type": "string", "format": "date-time"},
+    "ip": {"type": "string", "format": "ip"},
+    "unit": {"type": "null"},
+    "anyv": {},
+    "boolv": {"type": "boolean"},
+    "f": {"type": "number"},
+    "nz": {"type": "integer", "minimum": 1, "format": "uint32"},
+    "senum": {"type": "string", "enum": ["x", "y"]},
+    "cstr": {"type": "string", "maxLength": 3},
+    "nested": {"type": "object", "properties": {"z": {"type": "integer"}}},
+    "refnt": {"$ref": "#/definitions/KeyType"},
+}
+MEMBER_DEFAULTS = {
+    "m1": {"type": "object", "additionalProperties": {"type": "integer"}, "default": {"a": 1}},
+    "m2": {"type": "object", "propertyNames": KEYPAT, "default": {}},
+    "m3": {"type": "object", "default": {"k": 1}},
+    "m4": {"type": "object", "propertyNames": KEYPAT, "default": {"abc": 1}},
+    "v": {"type": "array", "items": {"type": "integer"}, "default": [1, 2]},
+    "s": {"type": "array", "items": {"type": "string"}, "uniqueItems": True, "default": []},
+    "s2": {"type": "array", "items": {"type": "string"}, "uniqueItems": True, "default": ["a"]},
+    "u": {"type": "string", "format": "uuid", "default": "00000000-0000-0000-0000-000000000000"},
+    "b": {"type": "boolean", "default": True},
+    "f": {"type": "number", "default": 1.5},
+    "o2": {"type": ["integer", "null"], "default": 4},
+    "t": {"type": "array", "items": [{"type": "integer"}, {"type": "string"}], "minItems": 2, "maxItems": 2,
+          "default": [1, "a"]},
+    "a3": {"type": "array", "items": {"type": "integer"}, "minItems": 3, "maxItems": 3, "default": [1, 2, 3]},
+    "e": {"type": "string", "enum": ["x", "y"], "default": "y"},
+    "any": {"default": {"k": [1, 2]}},
+    "cs": {"type": "string", "maxLength": 3, "default": "ab"},
+    "nested": {"type": "object", "properties": {"z": {"type": "integer"}}, "default": {"z": 1}},
+    "unit": {"type": "null", "default": None},
+}
+PIECES["KeyType"] = (KEYPAT, {"strnt", "constrained"})
+PIECES["MembersReq"] = (obj(dict(MEMBER_TYPES), sorted(MEMBER_TYPES)), {"struct", "members", "float"})
+PIECES["MembersOpt"] = (obj(dict(MEMBER_TYPES, boxed={"$ref": "#/definitions/MembersOpt"})), {"struct", "members", "float"})
+PIECES["MembersHalf"] = (obj(dict(MEMBER_TYPES), sorted(MEMBER_TYPES)[::2]), {"struct", "members", "float"})
+PIECES["MembersDefault"] = (obj(dict(MEMBER_DEFAULTS)), {"struct", "members", "float"})
+# one struct per optional map-member shape (minimal witnesses)
+for _k in ("map_str_any", "map_ckey_any", "map_enumkey_any", "map_uuidkey_any", "map_refkey_any", "map_str_typed",
+           "map_ckey_typed", "map_refkey_typed"):
+    PIECES["Opt_" + _k] = (obj({"annotations": MEMBER_TYPES[_k]}), {"struct", "members"})
+
 # user-requested derives that must compile on the given piece
 SAFE_PATCH = {
     "IntStruct": [["PartialEq"], ["PartialEq", "Eq"], ["PartialEq", "Eq", "Hash"],
@@ -249,6 +317,13 @@ NEGATIVE = [
 
 def doc_of(names, rename=None):
     defs = {}
+    names = list(names)
+    k = 0
+    while k < len(names):       # close under $ref to other pieces
+        for m in re.findall(r'#/definitions/([A-Za-z0-9_]+)"', json.dumps(PIECES[names[k]][0])):
+            if m in PIECES and m not in names:
+                names.append(m)
+        k += 1
     for n in names:
         s = json.loads(json.dumps(PIECES[n][0]))
         defs[(rename or {}).get(n, n)] = s
@@ -271,6 +346,7 @@ def gen_cases(ctx):
     for p in sorted(glob.glob(os.path.join(cdir, "*.json"))):
         c = json.load(open(p))
         out.append(({"src": "corpus:" + os.path.basename(p), "neg": bool(c.get("expect_derive_error")),
+                     "known": c.get("known"),
                      "model_derivable": bool(c.get("model_derivable", False))},
                     {"settings": c.get("settings", {}), "steps": c["steps"]}))
     # 1. fixtures of the repository, under three settings
@@ -293,10 +369,19 @@ def gen_cases(ctx):
                 case_of(doc_of(allp), {"struct_builder": True})))
     out.append(({"src": "kinds:PartialEq", "neg": False, "model_derivable": True},
                 case_of(doc_of(allp), {"derives": ["PartialEq"]})))
-    out.append(({"src": "kinds:PartialEq+Debug+Clone(dups)", "neg": False, "model_derivable": True},
-                case_of(doc_of(allp), {"derives": ["PartialEq", "Debug", "Clone", "PartialEq"], "struct_builder": True})))
-    out.append(({"src": "kinds:btreemap", "neg": False, "model_derivable": True},
-                case_of(doc_of(allp), {"map_type": "::std::collections::BTreeMap"})))
+    # the two further whole-world modules only in thorough (quick: the same settings occur in the random modules
+    # and on the member / boundary pieces below)
+    if ctx.tier == "thorough":
+        out.append(({"src": "kinds:PartialEq+Debug+Clone(dups)", "neg": False, "model_derivable": True},
+                    case_of(doc_of(allp), {"derives": ["PartialEq", "Debug", "Clone", "PartialEq"], "struct_builder": True})))
+        out.append(({"src": "kinds:btreemap", "neg": False, "model_derivable": True},
+                    case_of(doc_of(allp), {"map_type": "::std::collections::BTreeMap"})))
+    else:
+        sub = [n for n in allp if PIECES[n][1] & {"members", "boundary", "tagged-unit"}]
+        out.append(({"src": "members+boundary:PartialEq+Debug+Clone(dups)+builder", "neg": False, "model_derivable": True},
+                    case_of(doc_of(sub), {"derives": ["PartialEq", "Debug", "Clone", "PartialEq"], "struct_builder": True})))
+        out.append(({"src": "members+boundary:btreemap", "neg": False, "model_derivable": True},
+                    case_of(doc_of(sub), {"map_type": "::std::collections::BTreeMap"})))
     # 3. every safe per-type patch, one module per (piece, derive list), plus a rename
     for n, lists in sorted(SAFE_PATCH.items()):
         for k, ds in enumerate(lists):
@@ -317,6 +402,9 @@ def gen_cases(ctx):
     for r in range(n_rand):
         k = rnd.randint(2, 9)
         names = rnd.sample(allp, k)
+        mem = rnd.choice([n for n in allp if "members" in PIECES[n][1]])
+        if mem not in names:
+            names.append(mem)
         bnd = rnd.choice([n for n in allp if "boundary" in PIECES[n][1]])
         if bnd not in names:
             names.append(bnd)
@@ -447,6 +535,28 @@ def chunks_fn(i, gen):
 
 DERIVE_TRAIT_NAMES = {"Debug", "Clone", "Copy", "PartialEq", "Eq", "PartialOrd", "Ord", "Hash", "Serialize",
                       "Deserialize", "StructuralPartialEq"}
+
+
+def classify_known_errors(errs):
+    """Narrow classes of the recorded findings, decided on rustc's messages alone:
+    C19-F1: every error is an unsatisfied serde bound on an array type longer than 32;
+    C19-F2: every error is an unsatisfied bound / missing Debug on a tuple type of more than 12 components."""
+    if not errs:
+        return None
+    def f1(msg):
+        m = re.search(r"`\[.*; (\d+)\]: (Serialize|Deserialize)", msg or "")
+        return bool(m) and int(m.group(1)) > 32
+    def f2(msg):
+        m = re.search(r"`(\([^`]*\))`? doesn't implement `Debug`|the trait bound `(\([^`]*\)): ", msg or "")
+        if not m:
+            return False
+        t = m.group(1) or m.group(2)
+        return t.count(",") >= 12
+    if all(f1(m) for _, m in errs):
+        return "C19-F1"
+    if all(f2(m) for _, m in errs):
+        return "C19-F2"
+    return None
 
 
 def is_derive_error(errs):
@@ -642,6 +752,7 @@ def run(ctx):
                        "coqc Audit_C19.v (Print Assumptions); thorough: coqchk -o")
 
     vlib.build_harness(bins=("vh", "c19"))
+    ctx.log("harness built")
     # ---- T2: regenerate the table from the current source
     table = os.path.join(vlib.COQ, "theories", "Gen", "DeriveTable.v")
     # C19_TABLE_SRC: detection tests only - translate a mutated COPY of the source tree (see notes/C19.md)
@@ -651,6 +762,7 @@ def run(ctx):
     ctx.coverage["derive_table"] = "regenerated (%s)" % out.strip() if rc == 0 else "FAILED"
     coq_ok = vlib.standard_coq_obligations(ctx, "Props.C19", THEOREMS, ())
     shape_pins(ctx)
+    ctx.log("coq obligations done")
 
     # ---- world
     metas_cases = gen_cases(ctx)
@@ -658,6 +770,8 @@ def run(ctx):
     cases = [c for _, c in metas_cases]
     # detection test "real-assert-copy": a bound most types do NOT satisfy is really compiled (own world: no cache reuse)
     w = world.World(ctx, "c19mut" if MUT.startswith("real-") else "c19", cases, chunks_fn=chunks_fn)
+    w.generate()
+    ctx.log("typify ran on %d cases" % len(cases))
     w.build()
     n = len(cases)
     rendered = [i for i in range(n) if w.gen[i].get("render", {}).get("r") == "ok" and "dump" in w.gen[i]]
@@ -736,12 +850,21 @@ def run(ctx):
         src = metas[i]["src"]
         if w.status[i] == "compile-error":
             errs = w.compile_errors.get(i, [])
-            if metas[i]["neg"]:
+            if metas[i]["neg"] and not metas[i].get("known"):
                 continue
-            if is_derive_error(errs):
-                found.append({"kind": "derive-does-not-compile", "module": src, "case": cases[i], "rustc": errs[:4]})
-            else:
+            # the world's clean region compiles on the unchanged tree: a module rustc rejects means NO bound
+            # assertion of its types can be established (derive expansion errors carry many codes, e.g. E0308
+            # from a `skip_serializing_if` path of the wrong type inside #[derive(Serialize)])
+            kind = "derive-does-not-compile" if is_derive_error(errs) else "generated-module-does-not-compile"
+            kf = classify_known_errors(errs)
+            if kf and kind == "derive-does-not-compile":
+                found.append({"kind": kind, "known_class": kf, "module": src, "case": cases[i], "rustc": errs[:2]})
+                continue
+            if MUT == "tolerate-unrelated-compile-errors" and kind != "derive-does-not-compile":
                 unevaluated.append({"module": src, "rustc": errs[:2]})
+                continue
+            found.append({"kind": kind, "module": src, "case": cases[i], "rustc": errs[:4],
+                          "types_without_established_surface": [e["name"] for e in sviews[i]][:12]})
             continue
         if w.status[i] != "ok":
             continue
@@ -818,10 +941,11 @@ def run(ctx):
     for v in found + missing:
         f = None
         for kf in ctx.findings_for():
-            if kf.get("class") == v["kind"] and kf.get("witness_type") == v.get("type"):
+            if v.get("known_class") and kf.get("id") == v["known_class"]:
                 f = kf
         if f:
-            ctx.known_finding(f["id"], "%s: %s" % (f["id"], f["summary"]))
+            ctx.known_finding(f["id"], "%s: %s (e.g. module %s: %s)" % (
+                f["id"], f["summary"], v.get("module"), (v.get("rustc") or [["", ""]])[0][1][:120]))
         else:
             unlisted.append(v)
     ctx.oblige("direct property evaluation: %d trait-bound assertions compile, every item pub, Deserialize present "
